@@ -42,6 +42,35 @@ def model_check(chk, quick):
         chk.infra.append("diagnostic run without the lock did not produce a lost update: the invariants are vacuous")
 
 
+SAME_MC = """---- MODULE MC_SameItem ----
+EXTENDS SameItem
+c_W2 == {"p", "q"}
+====
+"""
+
+
+def same_item_observation(chk):
+    """Outside the listed properties (see spec/SameItem.tla): two writers of one item. TLC must find the
+    journal-order / apply-order inversion without a per-item lock and none with it; the counterexample is forced
+    onto the real engine. Reported as an observation in the evidence, never as a verdict."""
+    obs = {}
+    for locked in ("FALSE", "TRUE"):
+        r = run_tlc("MC_SameItem", "s.cfg", cfg_text=make_cfg("Spec", {"Writers": "<- c_W2", "Locked": locked}, ["Inv_RestartAgrees"]),
+                    extra_files={"MC_SameItem.tla": SAME_MC}, timeout=300)
+        obs["spec_locked_%s" % locked] = {"violated": r.violated, "distinct_states": r.distinct}
+    try:
+        binary = vlib.build_harness()
+        p = subprocess.run([binary, "sameitem"], capture_output=True, text=True, timeout=120)
+        real = json.loads(p.stdout)
+        obs["real_engine_forced_schedule"] = real
+        if real.get("forced") and real.get("live") != real.get("after_restart"):
+            print("OBSERVATION: two writers of one key, journal order p,q / apply order q,p (forced): live value %r, after a clean restart %r "
+                  "(outside the listed properties: C14 assumes one writer per item, C13 does not mention restarts)" % (real.get("live"), real.get("after_restart")))
+    except Exception as e:   # an observation must never break the check
+        obs["real_engine_forced_schedule"] = {"error": str(e)[:200]}
+    chk.cov["observation_same_item_writers"] = obs
+
+
 def validate(path):
     cfg = make_cfg("TraceSpec", {"Items": "<- c_Items", "KVKeys": "<- c_KVKeys"}, ["TInv_CountsBounded"], [],
                    constraint="HighWater", postcondition="TraceAccepted")
@@ -97,6 +126,7 @@ def run(tier):
     quick = tier == "quick"
     rng = random.Random(vlib.seed())
     model_check(chk, quick)
+    same_item_observation(chk)
     binary = vlib.build_harness(race=True)
     d = vlib.scratch("conc-")
     n = 6 if quick else 60
